@@ -100,6 +100,9 @@ func (ch *ConnectionHandler) muxHandler(protocol string, downstreamConnection io
 			if err != nil {
 				return err
 			}
+			// PipeData closes only the opposite end of whichever direction finishes first; when the target
+			// finishes first nobody else closes the connection we opened to it.
+			defer streams.TryClose(upstreamConnection)
 			return streams.PipeData(downstreamConnection, upstreamConnection)
 		}
 	}
